@@ -242,6 +242,8 @@ def check_loader(case: Dict[str, Any]) -> CaseInfo:
         classes.append("controlled_completion_order")
     if any(c.get("order") for c in case["configs"]):
         classes.append("permuted_parse_order")
+    if case.get("big_vocab"):
+        classes.append("vocabulary_above_127_symbols")
     if len({c["hashseed"] for c in case["configs"]}) >= 2:
         classes.append("several_hash_seeds")
     ok_an = [k for k, v in base["analyses"].items() if not (isinstance(v, dict) and "raises" in v)]
@@ -260,8 +262,22 @@ def _first_diff(a, b) -> str:
 
 @st.composite
 def loader_case(draw):
+    big = draw(st.sampled_from([False, True, False]))
     o = Opts(steps=[0, 1, 2, 3], w_launch=6, w_sync=2, max_top=3, streams=2, rank_vocab=VOCABS, ensure_kernel=True)
     case = draw(sim_case(o, max_ranks=4, nranks_choices=[2, 3, 4, 2]))
+    if big:
+        # one rank with more than 127 distinct names, so that symbols of the other ranks get ids beyond a narrow dtype
+        tgt = case["ranks"][draw(st.sampled_from([0, 0, -1]))]
+        n = draw(st.sampled_from([130, 140, 260]))
+        last = max((e.get("ts", 0) + e.get("dur", 0) for e in tgt["events"] if e.get("ph") == "X" and e.get("cat") != "Trace"), default=0)
+        host = next(e for e in tgt["events"] if e.get("ph") == "X" and e.get("cat") == "cpu_op")
+        if not any(e.get("name", "").startswith("ProfilerStep#") for e in tgt["events"]):
+            for i in range(n):
+                tgt["events"].append({"ph": "X", "cat": "cpu_op", "name": f"op_uniq_{i}", "pid": host["pid"], "tid": host["tid"],
+                                      "ts": last + 1 + i, "dur": 1, "args": {"External id": 9000 + i}})
+        else:
+            big = False
+    case["big_vocab"] = big
     ranks = [r["rank"] for r in case["ranks"]]
     configs = [{"hashseed": 0, "mp": False}]
     for _ in range(draw(st.sampled_from([2, 3, 4]))):
